@@ -130,7 +130,8 @@ class C03(Engine):
                     res.viol("decode:%s:extra-address" % fmt, addr="0x%x" % min(extra), n=len(extra), lo="0x%x" % lo, hi="0x%x" % hi)
                 else:
                     pad_hi = hi + (256 if fmt == "uf2" else info["align"] + 16)
-                    out_of_span = [a for a in extra if a < lo or a > pad_hi]
+                    # padding of the last block may run past 2^32 when the image ends at the top of the address space
+                    out_of_span = [a for a in extra if ((a - lo) & 0xffffffff) > pad_hi - lo]
                     nonzero = [a for a in extra if mem[a] != 0]
                     if out_of_span:
                         res.viol("decode:%s:extra-address-outside-span" % fmt, addr="0x%x" % min(out_of_span), n=len(out_of_span))
